@@ -169,8 +169,8 @@ def gen_seq(rng, files, good, maxops):
                 alive.add(d)
                 group[d] = group.get(c, c)
                 owndict.discard(d)
-                if fl:
-                    owndict.add(d)
+                if fl or c in owndict:
+                    owndict.add(d)      # a clone of such a clone shares its dictionary
         elif k == "F":
             ops.append("F%d" % c)
             alive.discard(c)
@@ -178,6 +178,7 @@ def gen_seq(rng, files, good, maxops):
             if not any(group.get(x, x) == group.get(c, c) for x in alive):
                 opened.discard(group.get(c, c))
                 group[c] = 100 + len(ops)       # a later N<c> starts a new shared state
+    ops.append("Z%d" % rng.randrange(6))
     return ops
 
 
@@ -219,6 +220,7 @@ def gen_badpages(rng, bad, good, maxops):
     # every good page must still be readable at the end
     for g in rng.sample(good, min(4, len(good))):
         ops.append("K%d:%#x" % (rng.choice(alive), g))
+    ops.append("Z%d" % rng.randrange(6))
     return ops
 
 
@@ -415,10 +417,22 @@ def judge_seqs(run, exe, seqs, out):
         l2 = "seq %s : %s" % ("|".join(files), " ".join(small))
         oo, _ = core.run_impl_lines(exe, run.work, [l2], timeout=120)
         # histories with a feature that is a recorded finding are classified by the feature
-        xclones = {op.split(":")[1] for op in small if op[0] == "C" and op.endswith(":1")}
+        xclones = set()         # contexts that use a clone's own dictionary
+        creates = False         # an attribute-creating call was made through such a dictionary
+        for op in small:
+            if op[0] in "VO" and op[1:].split(":")[0] in xclones:
+                creates = True
+            if op[0] == "C":
+                src, dst, fl = op[1:].split(":")
+                if fl == "1" or src in xclones:
+                    xclones.add(dst)
+                else:
+                    xclones.discard(dst)
+            elif op[0] in "FN":
+                xclones.discard(op[1:].split(":")[0])
         if sum(1 for op in small if op[0] == "O") >= 2:
             sig = "res seq reopen: " + sig[8:]
-        elif any(op[0] in "VO" and op[1:].split(":")[0] in xclones for op in small):
+        elif creates:
             sig = "res seq clone-creates-attrs: " + sig[8:]
         if sig in final:
             continue
